@@ -6,7 +6,7 @@ Their text is not pinned: a rewrite that keeps the meaning re-proves, a changed 
 -/
 import Iota.Gen.Bip39
 import Iota.Model.Bip39
-import Iota.Tie.Base32Code
+import Iota.Tie.BV
 
 namespace Iota.Tie.Bip39Code
 open Iota Iota.Go
